@@ -4,7 +4,8 @@
 //
 // Injected into package main of cmd/nokv-redis by ../run.sh (go -overlay).
 // Unexported identifiers used: newServer, newEmbeddedBackend (fallback launcher) or
-// main, listen, signalNotify (preferred launcher, see gw_*_test.go).
+// main, listen, signalNotify (preferred launcher, see gw_*_test.go); raftBackend{client, ts}
+// (raftgw_test.go).
 //
 // A case is a list of argv's.  They are sent as RESP arrays over a real
 // connection to the real gateway (embedded backend, database opened the way
@@ -43,7 +44,8 @@ func TestMain(m *testing.M) {
 // ------------------------------------------------------------ the case ----
 
 type vfCase29 struct {
-	Cmds [][][]byte // argv per command
+	Backend string     `json:",omitempty"` // "" = embedded (real main()), "raft" = raftBackend over the harness Percolator client
+	Cmds    [][][]byte // argv per command
 	// Batch: number of commands written before their replies are read (pipelining);
 	// missing / non-positive entries mean 1.
 	Batch    []int `json:",omitempty"`
@@ -650,7 +652,20 @@ func vfRun29(c vfCase29, r *pbt.Rec) (err error) {
 	if os.Getenv("VERIF_DEBUG_TIMING") != "" {
 		defer func() { fmt.Fprintf(os.Stderr, "case: %d cmds, total %v\n", len(c.Cmds), time.Since(t0)) }()
 	}
-	path, stop, herr := vfStartEmbedded(dir)
+	var (
+		path string
+		stop func()
+		herr error
+	)
+	flavour := vfGatewayFlavour
+	if c.Backend == "raft" {
+		path, stop, herr = vfStartRaft(dir)
+		flavour = "raft backend over kv.Apply"
+		r.Label("backend:raft")
+	} else {
+		path, stop, herr = vfStartEmbedded(dir)
+		r.Label("backend:embedded")
+	}
 	if os.Getenv("VERIF_DEBUG_TIMING") != "" {
 		fmt.Fprintf(os.Stderr, "start %v\n", time.Since(t0))
 	}
@@ -687,7 +702,7 @@ func vfRun29(c vfCase29, r *pbt.Rec) (err error) {
 		if len(h) > 40 {
 			h = append([]string{fmt.Sprintf("… %d earlier commands …", len(h)-40)}, h[len(h)-40:]...)
 		}
-		return pbt.Failf(sig, "%s\nhistory (gateway flavour %s):\n  %s", fmt.Sprintf(format, a...), vfGatewayFlavour, strings.Join(h, "\n  "))
+		return pbt.Failf(sig, "%s\nhistory (gateway flavour %s):\n  %s", fmt.Sprintf(format, a...), flavour, strings.Join(h, "\n  "))
 	}
 	i, b := 0, 0
 	for i < len(c.Cmds) {
@@ -811,14 +826,14 @@ var vfKeys = []string{"k1", "k2", "ctr", "a:b"}
 
 // Findings of this check that are excluded by construction while listed as open.
 const (
-	tagPing      = "C29-ping-arity"     // PING with >1 arguments / PING ""
-	tagIncrEmpty = "C29-incr-empty"     // empty / blank value counted as 0 by INCR
-	tagLenient   = "C29-lenient-int"    // +5, 007, -0 accepted as integers
-	tagDecrMin   = "C29-decrby-minint"  // DECRBY k -9223372036854775808
+	tagPing      = "C29-ping-arity"      // PING with >1 arguments / PING ""
+	tagIncrEmpty = "C29-incr-empty"      // empty / blank value counted as 0 by INCR
+	tagLenient   = "C29-lenient-int"     // +5, 007, -0 accepted as integers
+	tagDecrMin   = "C29-decrby-minint"   // DECRBY k -9223372036854775808
 	tagExOver    = "C29-expire-overflow" // EX/PX large enough to overflow time.Duration
 	tagHot       = "C29-hotkey-throttle" // >=128 writes to one key within 2 s are refused
-	tagPxatSub   = "C29-pxat-subsecond" // PXAT 1..999 refused
-	tagEmptyBulk = "C29-empty-value"    // GET of a key holding "" answers nil
+	tagPxatSub   = "C29-pxat-subsecond"  // PXAT 1..999 refused
+	tagEmptyBulk = "C29-empty-value"     // GET of a key holding "" answers nil
 )
 
 var (
@@ -837,7 +852,26 @@ var (
 type vfGen struct {
 	t        *rapid.T
 	excluded int
-	m        *vfModel // state reached by the commands generated so far (drives exclusion by construction)
+	m        *vfModel        // state reached by the commands generated so far (drives exclusion by construction)
+	raft     bool            // generating for the raft backend (its own findings are excluded only there)
+	ghost    map[string]bool // keys last written by a SET with an already elapsed expiry and not mentioned since
+}
+
+// Findings of the raft backend (spec seq-raft).
+const (
+	tagRaftDelDup     = "C29-raft-del-dup"     // DEL k k counts the key twice
+	tagRaftDelExpired = "C29-raft-del-expired" // DEL counts a key whose expiry has passed
+)
+
+// uniqueKeys draws 1..hi distinct keys.
+func (g *vfGen) uniqueKeys(hi int) [][]byte {
+	n := 1 + g.uni("nkeys-u", hi)
+	start := g.uni("key-u", len(vfKeys))
+	var out [][]byte
+	for i := 0; i < n && i < len(vfKeys); i++ {
+		out = append(out, []byte(vfKeys[(start+i)%len(vfKeys)]))
+	}
+	return out
 }
 
 // vfLenientForm: accepted by strconv.ParseInt but not by Redis' string2ll.
@@ -1038,7 +1072,27 @@ func (g *vfGen) command() [][]byte {
 	case w < 36:
 		return [][]byte{g.caseName("GET"), g.key()}
 	case w < 44:
-		return append([][]byte{g.caseName("DEL")}, g.keys(1, 3)...)
+		ks := g.keys(1, 3)
+		if g.raft && pbt.Open(tagRaftDelDup) {
+			g.excluded++
+			ks = g.uniqueKeys(3)
+		}
+		if g.raft && pbt.Open(tagRaftDelExpired) {
+			var live [][]byte
+			for _, k := range ks {
+				if !g.ghost[string(k)] {
+					live = append(live, k)
+				}
+			}
+			if len(live) != len(ks) {
+				g.excluded++
+			}
+			if len(live) == 0 {
+				return [][]byte{g.caseName("GET"), ks[0]}
+			}
+			ks = live
+		}
+		return append([][]byte{g.caseName("DEL")}, ks...)
 	case w < 52:
 		return append([][]byte{g.caseName("MGET")}, g.keys(1, 4)...)
 	case w < 60:
@@ -1110,13 +1164,23 @@ func (g *vfGen) wrongArity() [][]byte {
 	return shapes[g.uni("arity-shape", len(shapes))]
 }
 
-func vfGen29(t *rapid.T) vfCase29 {
-	g := &vfGen{t: t, m: vfNewModel()}
+func vfGen29(t *rapid.T) vfCase29 { return vfGen29For(t, false) }
+
+func vfGen29For(t *rapid.T, raft bool) vfCase29 {
+	g := &vfGen{t: t, m: vfNewModel(), raft: raft, ghost: map[string]bool{}}
 	var c vfCase29
 	n := rapid.IntRange(4, 40).Draw(t, "len")
 	for i := 0; i < n; i++ {
 		argv := g.command()
-		g.m.apply(argv)
+		before := g.m.expiredSet
+		if exp := g.m.apply(argv); exp.kind != '-' {
+			for _, a := range argv[1:] {
+				delete(g.ghost, string(a)) // a later successful mention overwrites, deletes or (on read) cleans the key up
+			}
+		}
+		if g.m.expiredSet > before && len(argv) > 1 {
+			g.ghost[string(argv[1])] = true
+		}
 		c.Cmds = append(c.Cmds, argv)
 	}
 	if rapid.IntRange(0, 7).Draw(t, "quit") == 0 {
@@ -1141,7 +1205,9 @@ func vfGen29(t *rapid.T) vfCase29 {
 }
 
 // vfStatic29: documented examples and the boundary inputs named by the property.
-func vfStatic29() []vfCase29 {
+func vfStatic29() []vfCase29 { return vfStatic29For(false) }
+
+func vfStatic29For(raft bool) []vfCase29 {
 	cmd := func(a ...string) [][]byte {
 		out := make([][]byte, len(a))
 		for i, s := range a {
@@ -1162,8 +1228,14 @@ func vfStatic29() []vfCase29 {
 		seq(cmd("SET", "k1", "v", "EXAT", "1000000000"), cmd("GET", "k1"), cmd("EXISTS", "k1"), cmd("SET", "k1", "w", "XX"), cmd("SET", "k1", "w", "NX"), cmd("GET", "k1"), cmd("SET", "k1", "z", "PXAT", "1000"), cmd("MGET", "k1", "k2"), cmd("DEL", "k1"), cmd("INCR", "k1")),
 		seq(cmd("SET", "k1", "v", "EX", "100000"), cmd("GET", "k1"), cmd("SET", "k2", "v", "PX", "100000000", "NX"), cmd("SET", "k2", "v", "PXAT", "4102444800000", "XX"), cmd("EXISTS", "k1", "k2", "k1"), cmd("SET", "k1", "5", "EXAT", "4102444800"), cmd("INCR", "k1"), cmd("MSET", "k1", "x"), cmd("GET", "k1")),
 		seq(cmd("SET", "k1", "v", "EX", "0"), cmd("SET", "k1", "v", "PX", "-1"), cmd("SET", "k1", "v", "EX", "abc"), cmd("SET", "k1", "v", "EX"), cmd("SET", "k1", "v", "NX", "XX"), cmd("SET", "k1", "v", "EX", "100000", "PX", "100000000"), cmd("SET", "k1", "v", "BOGUS"), cmd("GET", "k1")),
-		seq(cmd("MSET", "k1", "a", "k2", "b", "k1", "c"), cmd("MGET", "k1", "k2", "ctr", "k1"), cmd("DEL", "k1", "k1", "ctr"), cmd("EXISTS", "k2", "k2", "k1"), cmd("MSET", "k1"), cmd("MSET", "k1", "a", "k2")),
+		seq(cmd("MSET", "k1", "a", "k2", "b", "k1", "c"), cmd("MGET", "k1", "k2", "ctr", "k1"), cmd("DEL", "k1", "ctr"), cmd("EXISTS", "k2", "k2", "k1"), cmd("MSET", "k1"), cmd("MSET", "k1", "a", "k2")),
 		seq(cmd("set", "k1", "v", "nx"), cmd("gEt", "k1"), cmd("incrby", "ctr", "3"), cmd("Del", "k1", "ctr"), cmd("ping")),
+	}
+	if !(raft && pbt.Open(tagRaftDelDup)) {
+		out = append(out, seq(cmd("MSET", "k1", "a", "k2", "b"), cmd("DEL", "k1", "k1", "ctr"), cmd("DEL", "k2", "k2")))
+	}
+	if !(raft && pbt.Open(tagRaftDelExpired)) {
+		out = append(out, seq(cmd("SET", "k1", "v", "EXAT", "1000000000"), cmd("DEL", "k1"), cmd("SET", "k2", "v", "PXAT", "1000000000000"), cmd("SET", "ctr", "1"), cmd("DEL", "k2", "ctr")))
 	}
 	if !pbt.Open(tagPing) {
 		out = append(out, seq(cmd("PING", "a", "b"), cmd("PING", "")))
@@ -1203,7 +1275,8 @@ func TestCheck(t *testing.T) {
 	s := &pbt.Suite{ID: "C29", Level: "exploration",
 		Rule: "Sequences of 4-43 commands over 4 keys drawn from a grammar of GET, SET [NX|XX] [EX|PX|EXAT|PXAT n] (far-past / far-future n, invalid n, conflicting and dangling options), " +
 			"DEL, MGET, MSET, EXISTS, INCR, DECR, INCRBY, DECRBY (integers at and beyond the int64 limits, non-integers), PING, ECHO, QUIT and wrong arities, mixed-case names, " +
-			"sent request/response or pipelined over a real connection to the real gateway (embedded backend, fresh database per case, opened as main() opens it). " +
+			"sent request/response or pipelined over a real connection to the real gateway, fresh database per case: spec seq = embedded backend started through the real main(), " +
+			"spec seq-raft = raftBackend over a harness client on the real raftstore/kv applier (Percolator database, PD TSO allocator, one region). " +
 			"Oracle: a reference Redis model written from the command documentation: reply type and value of every command (errors by class: arity / syntax / not-an-integer / invalid-expire / overflow), " +
 			"connection closed after QUIT, and the resulting values read back over a second connection. Non-trivial = sequence containing >= 1 refused conditional SET, >= 1 INCR-family error and >= 1 successful INCR-family call; distinct by content.",
 		Assumptions: []string{
@@ -1215,7 +1288,18 @@ func TestCheck(t *testing.T) {
 		},
 	}
 	pbt.Add(s, &pbt.Spec[vfCase29]{Name: "seq", Gen: vfGen29, Run: vfRun29, Static: vfStatic29,
-		Quick: 3000, Thorough: 80000, Shards: 8, Timeout: 12 * time.Minute})
+		Quick: 2400, Thorough: 64000, Shards: 8, Timeout: 12 * time.Minute})
+	raft := func(c vfCase29) vfCase29 { c.Backend = "raft"; return c }
+	pbt.Add(s, &pbt.Spec[vfCase29]{Name: "seq-raft",
+		Gen: func(t *rapid.T) vfCase29 { return raft(vfGen29For(t, true)) }, Run: vfRun29,
+		Static: func() []vfCase29 {
+			var out []vfCase29
+			for _, c := range vfStatic29For(true) {
+				out = append(out, raft(c))
+			}
+			return out
+		},
+		Quick: 800, Thorough: 20000, Shards: 8, Timeout: 12 * time.Minute})
 	s.Extra("gateway_flavour", vfGatewayFlavour)
 	s.Main(t)
 	_ = os.Stdout
